@@ -45,7 +45,7 @@ type GraphCase struct {
 	To   string `json:"to,omitempty"`
 }
 
-var nodeNames = []string{"start", "n1", "n2", "a_b", "n-1", "n.2", "my node", `q"x`, "né", "error", "Ünï", "x'y", "a&b", "<n>", "@t", "@done"}
+var nodeNames = []string{"start", "n1", "n2", "a_b", "n-1", "n.2", "my node", `q"x`, "né", "error", "Ünï", "x'y", "a&b", "<n>", "@t", "@done", "100%done", "at%sign", "level%%"}
 var interpNames = []string{"ecmascript", "", "ecmascript-ext", "goja", "noop"}
 var graphPatterns = []interface{}{
 	nil, map[string]interface{}{"a": "?x"}, "?m", map[string]interface{}{"t": "<b>&amp; \"q\" 'r'"},
